@@ -45,6 +45,12 @@ def stamp(entry):
     return max(entry[1], entry[2])
 
 
+def fstamp(ns):
+    """Recency as an implementation can observe it through os.stat / os.path.getmtime: float seconds.
+    Two stamps closer than float resolution (~0.2 us in this epoch) are a tie, and ties are free."""
+    return ns / 1e9
+
+
 class Oracle:
     def __init__(self, world):
         self.w = world
@@ -194,11 +200,11 @@ class Oracle:
             k = w.key_of_path.get(p)
             if k is not None and k in self.volatile:
                 continue
-            if st < vmax:
+            if fstamp(st) < fstamp(vmax):
                 vp = [q for q, s in evicted if s == vmax][0]
                 return self._v("18f-ii", "evicted %s (last used %d) although %s (last used %d) is older and was kept"
                                % (posixpath.basename(vp), vmax, posixpath.basename(p), st), obs)
-            if st == vmax:
+            if fstamp(st) == fstamp(vmax):
                 self.probe("tie_at_eviction")
         return None
 
@@ -426,7 +432,7 @@ class Oracle:
         if not self.c19 and strict and obs.back_in_op == 0:
             for p in current_paths:
                 ent = post_files[p]
-                if stamp(ent) < obs.clock_start:
+                if fstamp(stamp(ent)) < fstamp(obs.clock_start):
                     k = w.key_of_path.get(p)
                     return self._v("18f-iii", "key %s was served but its recency stamp %d is older than the request (%d): "
                                    "a hit does not refresh recency" % (k, stamp(ent), obs.clock_start), obs)
